@@ -752,7 +752,7 @@ func init() {
 		Doc: "all sequences of <=2 operations (then a listing) starting from a populated registry: a ready as 2, b staged as 3"})
 	reg.Register(&reg.Scenario{Property: "C15", Name: "sequential-from-populated-3", Body: sequential(3, true), Quick: 0, Thorough: 0,
 		Doc: "all sequences of <=3 operations from the populated registry"})
-	reg.Register(&reg.Scenario{Property: "C15", Name: "subscriber-connection-cut", Body: subscriberCut, Quick: 2, Thorough: 3,
+	reg.Register(&reg.Scenario{Property: "C15", Name: "subscriber-connection-cut", Body: subscriberCut, Quick: 1, Thorough: 3,
 		Doc: "a subscriber of serviceAdded/serviceRemoved has its connection cut while another client registers, readies, lists, unregisters, lists: every answer must still be explained by the registry (an operation that took effect answers success)", MustFlag: []string{"cut-before-ready"}})
 	reg.Register(&reg.Scenario{Property: "C15", Name: "two-remote-clients", Body: remoteClients, Quick: 1, Thorough: 2,
 		Doc: "two remote clients: register(a), ready, unregister, services() each; history checked with porcupine against the registry", MustFlag: []string{"both-registered-in-turn", "name-collision-refused"}})
